@@ -30,7 +30,7 @@ def c5(ctx):
 
 
 def c3(ctx):
-    records.enum_dispatch(ctx, UNGROUP + ".check_orphan", "orphaned_notes")
+    records.enum_dispatch(ctx, UNGROUP, "orphaned_notes")
 
 
 def c4(ctx):
@@ -43,7 +43,7 @@ def sweep(ctx):
                                  ("simfile.notes.group:ungroup_notes", "simfile.notes.Note"): 2, ("simfile.notes.timed:time_notes", "simfile.notes.Note"): 1,
                                  ("simfile.notes.timed:time_notes", "simfile.notes.timed.TimedNote"): 2})
     records.enum_census(ctx, {("simfile.notes.group:group_notes.join_head_to_tail", "orphaned_tail"), ("simfile.notes.group:group_notes.join_head_to_tail", "orphaned_head"),
-                                ("simfile.notes.group:group_notes.add_row", "same_beat_notes"), ("simfile.notes.group:ungroup_notes.check_orphan", "orphaned_notes"),
+                                ("simfile.notes.group:group_notes.add_row", "same_beat_notes"), ("simfile.notes.group:ungroup_notes", "orphaned_notes"),
                                 ("simfile.notes.timed:time_notes", "unhittable_notes"), ("simfile.convert:_should_copy_property", "behavior")})
 
 
